@@ -125,6 +125,17 @@ def run_cases(cases, workers=8, timeout=1800):
     return res
 
 
+def deep_text(spec, d):
+    """the script of a ladder of any depth (the tree builders recurse once per level: room for them here)"""
+    import sys
+    old = sys.getrecursionlimit()
+    sys.setrecursionlimit(max(old, 4 * d + 2000))
+    try:
+        return N.render(N.fatten(N.ladder(spec["pattern"], d, spec["leaf"]), spec.get("side") or []))
+    finally:
+        sys.setrecursionlimit(old)
+
+
 def carry_to_default(spec):
     """the failing family under the default recursion limit: shallowest failing depth under two rooms, extrapolated to
     room 999, tried once (a ladder of that depth is parsed in 10 - 50 s) -> (depth, outcome) or None"""
@@ -134,8 +145,7 @@ def carry_to_default(spec):
         return None
     slope = (lo[1] - lo[0]) / (r2 - r1)
     d = int(round(lo[0] + slope * (DEFAULT_ROOM - r1))) + (0 if slope > 0.99 else 2)
-    tree = N.fatten(N.ladder(spec["pattern"], d, spec["leaf"]), spec.get("side") or [])
-    out = C.run_impl(IMPL, {"cases": [["run", tree, DEFAULT_ROOM]]}, timeout=1800)[0]
+    out = C.run_impl(IMPL, {"cases": [["run", deep_text(spec, d), DEFAULT_ROOM]]}, timeout=1800)[0]
     return d, out, lo
 
 
@@ -239,6 +249,8 @@ def part_b(ctx, stats, rng, thorough, fams):
         case = {"kind": "nesting-ladder", "pattern": spec["pattern"], "leaf": N.LEAVES[spec["leaf"]], "side": [N.LEAVES[i] for i in spec["side"]], "room": room}
         bad_rej = [k for k in r["rejections"] if k != "ValueError"]
         if bad_rej:
+            dd = (r["dacc"] or 0) + 1
+            case = dict(case, depth=dd, text=deep_text(spec, dd))
             ctx.fail(f"parse() raised {bad_rej[0]} on a {name} ladder too deep for {room} frames", case, "ValueError (expression too deeply nested)", r, key="nest-parse-kind:" + bad_rej[0])
         if r["dacc"] is None:
             ctx.disagree("no depth of a ladder family is accepted", case, "accepted at some depth", r)
@@ -267,10 +279,9 @@ def part_b(ctx, stats, rng, thorough, fams):
         if carried and carried[1]["parse"] is None and carried[1]["emit"] is not None:
             d, out, lo = carried
             carried_ok = True
-            tree = N.fatten(N.ladder(spec["pattern"], d, spec["leaf"]), spec["side"])
             case2 = dict(case, kind="nesting-ladder-default-limit", depth=d, room=DEFAULT_ROOM,
                          note=f"emit(parse(text)) called at module level under the default recursion limit; shallowest failing depth {lo[0]} / {lo[1]} with 48 / 72 frames of room, deepest accepted depth {r['dacc']} with {room}",
-                         text=N.render(tree))
+                         text=deep_text(spec, d))
             ctx.fail(f"emit() raised {out['emit']} on a script parse() accepted: {d} nested blocks ({'+'.join(spec['pattern'])}) around `{N.LEAVES[spec['leaf']]}`",
                      case2, "firmware, or a clean ValueError from parse()", out, key=key)
         else:
@@ -335,11 +346,12 @@ def replay_known(ctx, stats, thorough):
     stats["known:F-C11-emit-stack-window:" + str(r["emit"].get(str(r["dacc"])))] += 1
     if r["dacc"] is None or r["emit"].get(str(r["dacc"])) in (None, "ValueError"):
         return None
+    below = r["emit"].get(str(r["dacc"] - 1))
     line = (f"F-C11-emit-stack-window: {r['dacc']} nested `if` around rgb.off() with 80 interpreter frames left: parse() accepts, emit() raises "
-            f"{r['emit'][str(r['dacc'])]} (one level less is emitted, one level more is a clean ValueError)")
+            f"{r['emit'][str(r['dacc'])]} (one level less: {'firmware' if below is None else below}; deeper: parse() raises {', '.join(r['rejections']) or '-'})")
     if thorough:
         d = DEFAULT_ROOM - (80 - r["dacc"])
-        out = C.run_impl(IMPL, {"cases": [["run", N.ladder(["if"], d, WITNESS["leaf"]), DEFAULT_ROOM]]}, timeout=1800)[0]
+        out = C.run_impl(IMPL, {"cases": [["run", deep_text(WITNESS, d), DEFAULT_ROOM]]}, timeout=1800)[0]
         stats["known:F-C11-emit-stack-window:default-limit:" + str(out["emit"])] += 1
         line += f"; under the default recursion limit the same at {d} levels: parse {out['parse'] or 'accepts'}, emit {out['emit'] or 'ok'}"
     return line
